@@ -1129,13 +1129,15 @@ def r12_4(q, R, cx, spec):
     # directory: same extension on both sides
     dw, dr = q.fn("write", within="quill::enigma_dir::write"), dir_read_worker(q)
     if R.anchor("R12.4", "fn enigma_dir::write", dw) and R.anchor("R12.4", "directory reader with the WalkDir", dr):
-        wext = [H.const_name(n["args"][0]) for n in H.walk(dw["body"]) if n.get("k") == "mcall" and n["name"] == "set_extension"]
+        # writer and reader may delegate to private functions of the crate (path construction, mapping-file predicate)
+        skip = set(b["key"] for b in cx.roles.values() if b)
+        wscopes = U12.with_helpers(q, dw, skip=skip)
+        wext = [H.const_name(n["args"][0]) for sc, _, _ in wscopes for n in H.walk(sc["body"]) if n.get("k") == "mcall" and n["name"] == "set_extension"]
         rext = []
-        # the comparison may sit in a predicate function of the crate that the reader calls
-        scopes = [dr["body"]] + [q.by_key[k]["body"] for k in sorted(set((x.get("callee") or {}).get("key") for x in H.walk(dr["body"]) if x.get("k") == "call")
-                                                                   & set(q.by_key)) if q.by_key[k].get("output") == "bool"]
-        for sc in scopes:
-            for n in H.walk(sc):
+        for sc, _, _ in U12.with_helpers(q, dr, depth=1, skip=skip):
+            if sc is not dr and sc.get("output") != "bool":
+                continue
+            for n in H.walk(sc["body"]):
                 if n.get("k") == "bin" and n["op"] in ("==", "!="):
                     for x in H.walk(n):
                         if H.const_name(x):
@@ -1143,17 +1145,30 @@ def r12_4(q, R, cx, spec):
         ok = len(wext) == 1 and len(rext) == 1 and wext[0] == rext[0][0] and rext[0][1] == spec["file_extension"]
         R.inst("R12.4", "dir:extension", ok, sp=dw["sp"], expect="set_extension(MAPPING_EXTENSION) / extension == MAPPING_EXTENSION == %r" % spec["file_extension"],
                got={"write": wext, "read": rext})
-        # the target path is built from the file name handed to the closure
-        joins = [n for n in H.walk(dw["body"]) if n.get("k") == "mcall" and n["name"] == "join"]
+        # the target path is built from the file name handed to the closure (directly, or in a function the closure calls with it)
         dfn = U.Fn(q, dw)
-        okj = False
+        joins = []
+        for sc, call, caller in wscopes:
+            for n in H.walk(sc["body"]):
+                if n.get("k") == "mcall" and n["name"] == "join" and "path::Path" in U12.ty_of(n["recv"]):
+                    joins.append((n, sc, call, caller))
+        okj, gotj = False, [H.render(j[0])[:60] for j in joins]
         if len(joins) == 1:
-            a = dfn.trace(joins[0]["args"][0])
-            okj = a.root[0] in ("cparam", "param") or (a.root[0] == "callres")
-            cl = [n for n in H.walk(dw["body"]) if n.get("k") == "closure" and any(x is joins[0] for x in H.walk(n))]
+            jn, sc, call, caller = joins[0]
+            site = jn
+            if sc is dw:
+                a = dfn.trace(jn["args"][0])
+            elif caller is dw:
+                args = U12.call_args_positional(call)
+                a = U.Fn(q, sc, subst={i: (dfn, x) for i, x in enumerate(args)}).trace(jn["args"][0])
+                site = call
+            else:
+                a = None
+            cl = [n for n in H.walk(dw["body"]) if n.get("k") == "closure" and any(x is site for x in H.walk(n))]
             pid = [i for c in cl[:1] for p in c["params"] for (i, _) in H.pat_bindings(p)]
-            okj = bool(pid) and a.root[0] == "cparam" and a.root[1] == pid[0]
-        R.inst("R12.4", "dir:path-from-file-name", okj, sp=dw["sp"], expect="path.join(file_name) with the closure's file name")
+            okj = a is not None and bool(pid) and a.root[0] == "cparam" and a.root[1] == pid[0]
+            gotj = a.show() if a is not None else gotj
+        R.inst("R12.4", "dir:path-from-file-name", okj, sp=dw["sp"], expect="path.join(file_name) with the closure's file name", got=gotj)
     R.floor("R12.4", 9)
 
 
@@ -1372,17 +1387,32 @@ def r12_7(q, R, spec):
     # ---- writer: the extension is put on every created file
     dw = q.fn("write", within="quill::enigma_dir::write")
     if R.anchor("R12.7", "fn enigma_dir::write", dw):
-        wroot = dw["body"]
-        sets = [n for n in H.walk(wroot) if n.get("k") == "mcall" and n["name"] == "set_extension"]
-        creates = [n for n in H.walk(wroot) if n.get("k") == "call" and (H.callee_path(n) or "").endswith(("File::create", "File::create_new"))]
-        ok, got = False, None
-        if len(sets) == 1 and len(creates) == 1:
-            conds = [c for c in H.path_conditions(wroot, sets[0]) if c[0] != "after-exit"]
-            order = [id(x) for x in H.walk(wroot)]
-            l1, l2 = H.local_of(sets[0]["recv"]), H.local_of(creates[0]["args"][0])
-            ok = not conds and l1 is not None and l2 is not None and l1[0] == l2[0] and order.index(id(sets[0])) < order.index(id(creates[0])) \
-                and H.const_value(sets[0]["args"][0]) == spec["file_extension"]
-            got = {"conditions": [(k, H.render(c)[:50], p) for k, c, p in conds], "set_extension on": l1, "File::create of": l2}
+        scopes = U12.with_helpers(q, dw, skip=set(b["key"] for b in resolve_roles(q, U.Writer(q)).values() if b))
+        creates = [(n, sc) for sc, _, _ in scopes for n in H.walk(sc["body"])
+                   if n.get("k") == "call" and (H.callee_path(n) or "").endswith(("File::create", "File::create_new"))]
+        ok, got = False, {"File::create calls": len(creates)}
+        if len(creates) == 1:
+            cr, csc = creates[0]
+            bw = U12.built_where(q, csc, cr["args"][0])
+            got = {"File::create of": H.render(cr["args"][0])[:40], "built in": None}
+            if bw is not None:
+                owner, lid, followed = bw
+                sets = [n for n in H.walk(owner["body"]) if n.get("k") == "mcall" and n["name"] == "set_extension"
+                        and H.local_of(n["recv"]) and H.local_of(n["recv"])[0] == lid]
+                got["built in"] = owner["path"]
+                got["set_extension calls on it"] = len(sets)
+                if len(sets) == 1:
+                    # unconditional where it stands, and every call that hands the path on is unconditional in its caller
+                    conds = [c for c in H.path_conditions(owner["body"], sets[0]) if c[0] != "after-exit"]
+                    for call, caller in followed:
+                        conds += [c for c in H.path_conditions(caller["body"], call) if c[0] != "after-exit"]
+                    before = True
+                    if owner is csc:
+                        order = [id(x) for x in H.walk(owner["body"])]
+                        before = order.index(id(sets[0])) < order.index(id(cr))
+                    ok = not conds and before and H.const_value(sets[0]["args"][0]) == spec["file_extension"]
+                    got["conditions"] = [(k, H.render(c)[:50], p) for k, c, p in conds]
+                    got["before File::create"] = before
         R.inst("R12.7", "dir-write:extension-on-every-file", ok, sp=dw["sp"],
                expect="target.set_extension(MAPPING_EXTENSION) unconditionally, before File::create(&target)", got=got)
     R.floor("R12.7", 4)
